@@ -113,9 +113,12 @@ impl Property for Spellings {
         let inv = gen_invocation(t, &spec, &io);
         let mut spellings = Vec::new();
         let mut feats = Vec::new();
+        // one case in three names subcommands through their long flags (canonical flag vs alias vs prefix) in both spellings
+        let long_kind = t.chance(1, 3);
         for _ in 0..2 {
             let mut st = SpellStats {
-                no_flag_subcommand_forms: true,
+                no_flag_subcommand_forms: !long_kind,
+                only_long_flag_forms: long_kind,
                 ..Default::default()
             };
             if let Some(sp) = spell(t, &spec, &inv, &mut st) {
@@ -397,7 +400,7 @@ impl Property for Ambiguity {
 pub fn check() -> Check {
     Check {
         id: "C08",
-        parts: vec![Box::new(Gen(Spellings)), Box::new(Gen(Ambiguity))],
+        parts: vec![Box::new(Gen(Spellings)), Box::new(Gen(Ambiguity)), Box::new(Gen(crate::hyph::HyphenLines { name: "hyphen-positional-spellings" }))],
         assumptions: vec![
             "only the equivalences the statement lists are used; flag-subcommand forms are left out because entering a subcommand \
              through a short cluster legitimately continues the parent's logical indices"
